@@ -1,5 +1,7 @@
 /- C04 helper lemmas: L1 unsafe_set_size, L2 loops (fill/copy/swap_ranges), L3 rotate (needs Mathlib.Data.List.Rotate),
-   L4–L7 one lemma per member (`…_rep`), L8 the clamped semantics and `fits → clamped = std`, L9 the compare clamps, L10 overload resolution (C-string length, sub-views, substr), L11 etl::erase(c, value). -/
+   L4–L7 one lemma per member (`…_rep`), L8 the clamped semantics and `fits → clamped = std`, L9 the compare clamps, L10 overload resolution (C-string length, sub-views, substr), L11 etl::erase(c, value).
+   Further groups, imported by Props.lean directly: Search (views + guards of the search members), Plus (copy, element access, operator+),
+   EraseIf (etl::erase_if), Alias (self-aliasing arguments). -/
 import TetlProofs.C04.L8
 import TetlProofs.C04.L9
 import TetlProofs.C04.L10
